@@ -1,12 +1,47 @@
 """C01 — symmetric tensor algebra matches its 3x3 matrix meaning (tie: T1 symtrace)."""
+import math
 import random
+import struct
+from fractions import Fraction
 
+import emit
 import t1
 import vlib
 from emit import Q2
 from m3 import M3, SQ2, mandel_inputs, sym_of, q
 
-PROPS = ["TfelVerif.C01.Props"]
+PROPS = ["TfelVerif.C01.Props", "TfelVerif.C01.Props2", "TfelVerif.C01.Props3", "TfelVerif.C01.Props4"]
+
+
+def fns(name, args):
+    """deterministic interpretation of the recorded function symbols for the exact failing-input search
+    (abs/min/max: their meaning; log/sqrt: the correctly rounded double taken as an exact rational; `f`: a fixed
+    polynomial). The traced code and the reference apply it to identical exact arguments."""
+    x = [float(a) for a in args]
+    if name == "abs":
+        return args[0] if x[0] >= 0 else -args[0]
+    if name == "max":
+        return args[1] if x[0] < x[1] else args[0]
+    if name == "min":
+        return args[1] if x[1] < x[0] else args[0]
+    if name == "log":
+        if x[0] <= 0:
+            raise ZeroDivisionError
+        return Q2(Fraction(math.log(x[0])))
+    if name == "sqrt":
+        if x[0] < 0:
+            raise ZeroDivisionError
+        return Q2(Fraction(math.sqrt(x[0])))
+    if name == "f":
+        return args[0] * args[0] * args[0] - args[0] * Q2(2) + Q2(1)
+    raise emit.NotExact(name)
+
+
+def adj(A):
+    a = A.a
+    return M3([[a[1][1] * a[2][2] - a[1][2] * a[2][1], a[0][2] * a[2][1] - a[0][1] * a[2][2], a[0][1] * a[1][2] - a[0][2] * a[1][1]],
+               [a[1][2] * a[2][0] - a[1][0] * a[2][2], a[0][0] * a[2][2] - a[0][2] * a[2][0], a[0][2] * a[1][0] - a[0][0] * a[1][2]],
+               [a[1][0] * a[2][1] - a[1][1] * a[2][0], a[0][1] * a[2][0] - a[0][0] * a[2][1], a[0][0] * a[1][1] - a[0][1] * a[1][0]]])
 
 
 def specs():
@@ -139,27 +174,164 @@ def specs():
                         B.a[j][i] = q(v)
                         return e, B.mandel(N)
                     S[d + "setComponent_%d_%d" % (i, j)] = setc
+
+        # ---- units of trace2.cxx
+        S[d + "sigmaeq"] = (lambda st: lambda rng: (lambda e, A: (e, [fns("sqrt", [A.dev().frob(A.dev()) * Q2(Fraction(3, 2))])]))(*st(rng)))(st)
+
+        def conv(rng, two=two, N=N, to_pk2=True):
+            def f(A, U):
+                if to_pk2:
+                    return (adj(U) * A * adj(U) * (Q2(1) / U.det())).mandel(N)
+                return (U * A * U * (Q2(1) / U.det())).mandel(N)
+            e1, A = st(rng, "s")
+            e2, U = st(rng, "u")
+            e1.update(e2)
+            return e1, f(A, U)
+        S[d + "convertCauchyToPK2"] = conv
+        S[d + "convertPK2ToCauchy"] = (lambda conv: lambda rng: conv(rng, to_pk2=False))(conv)
+        S[d + "detDerivative"] = (lambda st, N: lambda rng: (lambda e, A: (e, adj(A).mandel(N)))(*st(rng)))(st, N)
+        S[d + "devDetDerivative"] = (lambda st, N: lambda rng: (lambda e, A: (e, adj(A.dev()).dev().mandel(N)))(*st(rng)))(st, N)
+        S[d + "negate"] = (lambda st, N: lambda rng: (lambda e, A: (e, (A * Q2(-1)).mandel(N)))(*st(rng)))(st, N)
+        S[d + "product"] = (lambda two, N: lambda rng: two(rng, lambda A, B: (A * B).tens(N)))(two, N)
+
+        def absum(rng, st=st, ns=ns):
+            e, A = st(rng)
+            r = Q2(0)
+            for k in range(ns):
+                r = r + fns("abs", [e["s%d" % k]])
+            return e, [r]
+        S[d + "abs"] = absum
+        S[d + "exportToBaseTypeArray"] = iw
+        S[d + "buildFromEigenValuesAndVectors3"] = bfe
+
+        def spectral(rng, g, g2=None, N=N, positive=False):
+            e, Mx = rot(rng, "m")
+            l = [(abs(v) + 1 if positive else v) for v in rr(rng, 3)]
+            e.update({"l%d" % i: q(l[i]) for i in range(3)})
+            if N == 2:
+                Mx = M3([[Mx.a[0][0], Mx.a[0][1], 0], [Mx.a[1][0], Mx.a[1][1], 0], [0, 0, 1]])
+
+            def build(h):
+                hl = [h(q(x)) for x in l]
+                if N == 1:
+                    return hl
+                return (Mx * M3.diag(*hl) * Mx.T()).mandel(N)
+            return e, build(g) + build(g2 or g)
+        S[d + "buildLogarithm"] = (lambda sp: lambda rng: sp(rng, lambda x: fns("log", [x]), positive=True))(spectral)
+        S[d + "buildPositivePart"] = (lambda sp: lambda rng: sp(rng, lambda x: fns("max", [Q2(0), x])))(spectral)
+        S[d + "buildNegativePart"] = (lambda sp: lambda rng: sp(rng, lambda x: fns("min", [Q2(0), x])))(spectral)
+        S[d + "computeIsotropicFunction"] = (lambda sp: lambda rng: sp(rng, lambda x: fns("f", [x]), lambda x: x))(spectral)
         S[d + "Id"] = (lambda N: lambda rng: ({}, M3.one().mandel(N)))(N)
+
+    def one_d(g, positive=False):
+        def f(rng):
+            v = [(abs(x) + 1 if positive else x) for x in rr(rng, 3)]
+            return {"s%d" % i: q(v[i]) for i in range(3)}, [g(q(x)) for x in v]
+        return f
+    S["N1_logarithm"] = one_d(lambda x: fns("log", [x]), positive=True)
+    S["N1_absolute_value"] = one_d(lambda x: fns("abs", [x]))
+    S["N1_positive_part"] = one_d(lambda x: fns("max", [x, Q2(0)]))
+    S["N1_negative_part"] = one_d(lambda x: fns("min", [x, Q2(0)]))
     return S
 
 
+VOIGT = {1: {(0, 0): 0, (1, 1): 1, (2, 2): 2},
+         2: {(0, 0): 0, (1, 1): 1, (2, 2): 2, (0, 1): 3, (1, 0): 3},
+         3: {(0, 0): 0, (1, 1): 1, (2, 2): 2, (0, 1): 3, (1, 0): 3, (0, 2): 4, (2, 0): 4, (1, 2): 5, (2, 1): 5}}
+
+
+def numeric(ck, binary, rng):
+    """value dependent code run on double: tresca(stensor<1>) = max |s_i - s_j| (bit exact: one IEEE
+    subtraction and comparisons), VoigtIndex<N>/getComponent over all (i,j) in 0..3 including rejected pairs"""
+    n = 60 if ck.quick else 2000
+    cases = [(1.0, 1.0, 1.0), (0.0, -0.0, 0.0), (1.0, 2.0, 2.0), (2.0, 1.0, 2.0), (2.0, 2.0, 1.0), (3.0, 2.0, 1.0),
+             (1.0, 3.0, 2.0), (1e300, -1e300, 0.0), (1e-310, -1e-310, 3e-310), (-5.0, -7.0, -6.0)]
+    while len(cases) < n:
+        sc = rng.choice([1.0, 1.0, 1e-200, 1e200, 1e-3, 1e6])
+        v = [rng.uniform(-10, 10) * sc for _ in range(3)]
+        if rng.random() < 0.2:
+            v[rng.randrange(3)] = v[rng.randrange(3)]
+        cases.append(tuple(v))
+    req = ["tresca %s %s %s" % tuple(repr(x) for x in c) for c in cases] + ["voigt"]
+    p = ck.run([binary], input="\n".join(req) + "\n", timeout=300)
+    out = p.stdout.splitlines()
+    stats = {"tresca_cases": len(cases), "voigt_pairs": 0, "voigt_rejected": 0}
+    if p.returncode != 0 or len(out) != len(cases) + 48:
+        ck.violation("numeric:harness", "C01 numeric harness failed (rc=%d, %d lines)" % (p.returncode, len(out)),
+                     {"stderr": p.stderr[-2000:]}, False)
+        return stats
+    bits = lambda x: struct.pack("<d", x)
+    for c, line in zip(cases, out):
+        f = line.split()
+        a, b, d = c
+        exp = max(abs(a - b), abs(a - d), abs(d - b))
+        got = [float(f[1]), float(f[2])]
+        if any(bits(g) != bits(exp) and not (g == exp) for g in got):
+            ck.violation("stensor.ixx:tresca<1>", "tresca(stensor<1>) is not max |s_i - s_j| (the Tresca stress of diag(s0,s1,s2))",
+                         {"input": {"s": [repr(x) for x in c]}, "real_code_result": got, "expected": exp}, True)
+            break
+    for line in out[len(cases):]:
+        f = line.split()
+        N, i, j = int(f[1]), int(f[2]), int(f[3])
+        stats["voigt_pairs"] += 1
+        want = VOIGT[N].get((i, j))
+        if want is None:
+            stats["voigt_rejected"] += 1
+            ok = f[4] == "X" and f[5] == "X"
+            expv = "contract violation"
+        else:
+            val = 10. + want
+            if want > 2:
+                val = val * 0.70710678118654752440
+            ok = f[4] == str(want) and f[5] != "X" and float(f[5]) == val
+            expv = [want, val]
+        if not ok:
+            ck.violation("StensorConcept.ixx:VoigtIndex<%d>" % N,
+                         "VoigtIndex<%d>(%d,%d)/getComponent do not address the matrix entry (%d,%d) (or accept an index pair outside the dimension)" % (N, i, j, i, j),
+                         {"input": {"N": N, "i": i, "j": j, "storage": [10. + k for k in range({1: 3, 2: 4, 3: 6}[N])]},
+                          "real_code_result": f[4:], "expected": expv}, True)
+    return stats
+
+
 def run(ck):
-    tracer = ck.cxx("c01trace", ["C01/trace.cxx", vlib.REPO + "/src/Exception/ContractViolation.cxx"], opt="-O0")
-    dag, units = t1.run_tracer(ck, tracer)
+    cv = vlib.REPO + "/src/Exception/ContractViolation.cxx"
+    bins = ck.cxx_many([("c01trace", ["C01/trace.cxx", cv]), ("c01trace2", ["C01/trace2.cxx", cv]),
+                        ("c01numeric", ["C01/numeric.cxx"])], opt="-O0")
+    tracer, tracer2 = bins["c01trace"], bins["c01trace2"]
+    dag, units1 = t1.run_tracer(ck, tracer)
+    dag2, units2 = t1.run_tracer(ck, tracer2, out="trace2.dag")
+    units = units1 + units2
     ck.emit([dag], "TfelVerif.C01.Gen", "TfelVerif/C01/Gen.lean")
+    ck.emit([dag2], "TfelVerif.C01.Gen2", "TfelVerif/C01/Gen2.lean")
     res = ck.lean(PROPS, PROPS)
     rng = random.Random(ck.seed)
+    nstats = numeric(ck, bins["c01numeric"], rng)
     S = specs()
     # exact differential evaluation of every traced unit against the reference (supports the tie and
     # is the failing-input search when an obligation breaks)
     trials = 4 if ck.quick else 40
-    found, stats = t1.search_units(ck, units, S, rng, tracer, trials=trials)
+    # the recorded function symbols (sqrt, log, abs, min, max, f) are interpreted by `fns` on both sides
+    orig_eval = emit.evaluate
+    emit.evaluate = lambda u, env, f=None: orig_eval(u, env, fns)
+    try:
+        found, stats = t1.search_units(ck, units1, S, rng, tracer, trials=trials)
+        found2, stats2 = t1.search_units(ck, units2, S, rng, tracer2, trials=trials)
+    finally:
+        emit.evaluate = orig_eval
+    found += found2
+    stats = {k: stats[k] + stats2[k] for k in stats}
     if not res.ok:
         by_unit = {f["unit"]: f for f in found}
 
         def search(fl):
             thm = fl.get("theorem") or ""
-            cands = [u for u in by_unit if thm.startswith(u) or u.startswith(thm)]
+            base = thm[:-4] if thm.endswith("_den") else thm
+            if base in by_unit:
+                return by_unit[base]
+            # grouped theorems (N2_setComponent_diag ...): a unit whose name the theorem name extends, else
+            # a unit extending the theorem name; longest common name first
+            cands = sorted([u for u in by_unit if base.startswith(u)], key=len, reverse=True) + \
+                sorted([u for u in by_unit if u.startswith(base[:-5] if base.endswith("_diag") else base)], key=len)
             if cands:
                 return by_unit[cands[0]]
             return None
@@ -182,6 +354,6 @@ def run(ck):
         "dag_nodes": sum(len(u.order) for u in units),
         "evaluations": stats["points"], "distinct_nontrivial": stats["points"],
         "rule": "each traced unit evaluated exactly over Q(sqrt2) at seeded random rational tensors and compared with an independent 3x3 matrix reference; distinct = points (random rationals)",
-        "search_stats": stats, "units_without_reference": missing,
+        "search_stats": stats, "units_without_reference": missing, "numeric": nstats,
         "samples": [{"unit": u.name, "inputs": u.inputs, "outputs": [o for o, _ in u.outs]} for u in units[:3]],
     })
